@@ -43,10 +43,11 @@ class State:
 
 
 class Machine:
-    def __init__(self, semantics="E", max_steps=20000, max_paths=2000, solver_timeout_ms=10000, incremental=False):
+    def __init__(self, semantics="E", max_steps=20000, max_paths=2000, solver_timeout_ms=10000, incremental=False, deadline_s=None):
         """incremental=False: every feasibility query goes to a fresh solver loaded with the path condition (in practice far
         faster and more predictable than one long-lived push/pop solver, whose state degrades); True: push/pop solver."""
         self.sem, self.max_steps, self.max_paths = semantics, max_steps, max_paths
+        self.deadline_s = deadline_s  # wall-clock budget of one run(); states left when it expires end as `undecided`
         self.timeout, self.incremental = solver_timeout_ms, incremental
         self.solver = z3.SimpleSolver()
         self.solver.set("timeout", solver_timeout_ms)
@@ -107,10 +108,15 @@ class Machine:
             if r == z3.unsat:
                 return []
         self._paths, self._work = [], [State(term, None, None, kont, pc, {}, model, (), 0, (), False)]
+        import time as _time
+        t_end = _time.time() + self.deadline_s if self.deadline_s else None
         while self._work:
             st = self._work.pop()
             if len(self._paths) >= self.max_paths:
                 self._finish(st, ("undecided", "path cap"))
+                continue
+            if t_end is not None and _time.time() > t_end:
+                self._finish(st, ("undecided", "time budget of the exploration"))
                 continue
             self._exec(st)
         self._sync(())
